@@ -36,9 +36,8 @@ PROPS = {
             "penalty_le_90pct", "split_accounted", "split_all_to_collector_when_no_active_farm",
             "split_all_to_collector_when_share_rounds_to_zero", "owner_share_is_half",
             "MantraDex.C09Sys.emergency_withdraw_tx_effect", "MantraDex.C09Sys.uniqueOwners_nodup",
-            "MantraDex.C02Live.emergency_withdraw_live_partial",
-        ],
-        "extra_modules": ["MantraDex.Properties.C09Sys", "MantraDex.Properties.C02Live"],
+            "MantraDex.C02Live.emergency_withdraw_live_partial", "MantraDex.MonSoundB.monWithdrawPos_emergency_sound"],
+        "extra_modules": ["MantraDex.Properties.C09Sys", "MantraDex.Properties.C02Live", "MantraDex.Properties.MonSoundB"],
         "streams": {"farmmath": (6000, 300000), "fm_hist": (120, 3000)},
         "what": "THROUGH THE RUNTIME (C09Sys.emergency_withdraw_tx_effect): an accepted emergency withdrawal is signed by the position's owner, deletes the "
                 "position, leaves farms and the pool manager untouched, and moves EXACTLY: amount - penalty to the owner, the same share to every distinct owner of "
@@ -88,9 +87,9 @@ PROPS = {
                      "MantraDex.NonVacuity.w0_allInv", "MantraDex.NonVacuity.hist_effective", "MantraDex.NonVacuity.instance_custody",
                      "MantraDex.C01Exact.excess_tx_exact", "MantraDex.C01Exact.excess_history_exact",
                      "MantraDex.C01Exact.Cx.pmCollector_needed", "MantraDex.C01Exact.Cx.fmCollector_needed", "MantraDex.C01Exact.Cx.farmOwners_needed",
-                     "MantraDex.C01Exact.Cx.swapReceiver_needed", "MantraDex.C01Exact.Cx.routeReceiver_needed", "MantraDex.C01Exact.Cx.oddUnit_instance"],
+                     "MantraDex.C01Exact.Cx.swapReceiver_needed", "MantraDex.C01Exact.Cx.routeReceiver_needed", "MantraDex.C01Exact.Cx.oddUnit_instance", "MantraDex.MonSound.monPmExcess_sound"],
         "extra_modules": ["MantraDex.Properties.C01Sys", "MantraDex.Properties.C02Sys", "MantraDex.Properties.C01All", "MantraDex.Properties.NonVacuity",
-                          "MantraDex.Properties.C01Exact"],
+                          "MantraDex.Properties.C01Exact", "MantraDex.Properties.MonSound"],
         "streams": {"pm_hist": (160, 4000), "faults": (45, 1500)},
         "what": "handler-level conservation law of the pool manager for every non-LP token: reserves' + outflow(messages) = reserves + inflow(funds) "
                 "for swap, routed swap (any length), withdraw, multi-asset deposit, pool creation (keeps nothing), config/ownership; the single-asset "
@@ -241,8 +240,8 @@ PROPS = {
                      "MantraDex.C02Sys.lp_supply_ge_min_reachable", "MantraDex.C02Sys.lp_supply_moves_only_by_deposit_or_withdrawal",
                      "MantraDex.C02Sys.lp_funded_step", "MantraDex.C03Sys.cp_value_per_lp_step", "MantraDex.C03Sys.cp_value_per_lp_reachable",
                      "MantraDex.C16Tx.withdraw_liquidity_tx_effect_partial", "MantraDex.C16Tx.provide_liquidity_tx_effect_partial",
-                     "MantraDex.C02Live.withdraw_liquidity_live_partial"],
-        "extra_modules": ["MantraDex.Properties.C02Sys", "MantraDex.Properties.C03Sys", "MantraDex.Properties.C16Tx", "MantraDex.Properties.C02Live"],
+                     "MantraDex.C02Live.withdraw_liquidity_live_partial", "MantraDex.MonSound.monWithdraw_sound", "MantraDex.MonSound.monCpDeposit_sound_partial", "MantraDex.MonSound.monCpDeposit_sound_counterexample"],
+        "extra_modules": ["MantraDex.Properties.C02Sys", "MantraDex.Properties.C03Sys", "MantraDex.Properties.C16Tx", "MantraDex.Properties.C02Live", "MantraDex.Properties.MonSound"],
         "streams": {"mintmath": (3000, 150000), "pm_hist": (160, 4000)},
         "what": "constant product: later mint = min over the two assets of floor(deposit*supply/reserve) <= the proportional contribution; x*y/supply^2 "
                 "never decreases through a deposit or a withdrawal; first mint + locked 1000 = floor(sqrt(d0*d1)); a withdrawal pays floor(reserve*burned/"
@@ -283,8 +282,8 @@ PROPS = {
         "module": "MantraDex.Properties.C03", "ns": "MantraDex.C03",
         "theorems": ["cp_gross_formula", "cp_swap_k_mono", "performSwap_k_mono", "cp_round_trip_no_profit", "ss_swap_D_witness",
                      "MantraDex.C03Sys.cp_value_per_lp_step", "MantraDex.C03Sys.cp_value_per_lp_reachable",
-                     "MantraDex.C03NoDrain.no_history_drains_pool", "MantraDex.C03NoDrain.not_both_down"],
-        "extra_modules": ["MantraDex.Properties.C03Sys", "MantraDex.Properties.C03NoDrain"],
+                     "MantraDex.C03NoDrain.no_history_drains_pool", "MantraDex.C03NoDrain.not_both_down", "MantraDex.MonSoundB.monSwapReserves_sound"],
+        "extra_modules": ["MantraDex.Properties.C03Sys", "MantraDex.Properties.C03NoDrain", "MantraDex.Properties.MonSoundB"],
         "streams": {"swapmath": (4000, 200000), "pm_hist": (120, 3000)},
         "what": "constant product: gross output = floor(Y*o/(X+o)); x*y never decreases through compute_swap / perform_swap for every reserve, "
                 "offer and fee setting incl. zero fees; a swap-and-swap-back round trip never returns more than was put in. THROUGH THE RUNTIME (C03Sys): for every "
@@ -300,8 +299,8 @@ PROPS = {
         "module": "MantraDex.Properties.C04", "ns": "MantraDex.C04",
         "theorems": ["fee_is_floor_share", "fee_never_more", "computeFees_ok", "net_is_gross_minus_fees", "computeSwap_split",
                      "performSwap_ok", "swapHandler_messages", "routeHops_chain", "routeHops_fee_msgs",
-                     "MantraDex.C04Sys.swap_tx_effect", "MantraDex.C12Sys.route_tx_effect"],
-        "extra_modules": ["MantraDex.Properties.C04Sys", "MantraDex.Properties.C12Sys"],
+                     "MantraDex.C04Sys.swap_tx_effect", "MantraDex.C12Sys.route_tx_effect", "MantraDex.MonSoundB.monSwapReserves_sound", "MantraDex.MonSoundB.monSwapBank_sound"],
+        "extra_modules": ["MantraDex.Properties.C04Sys", "MantraDex.Properties.C12Sys", "MantraDex.Properties.MonSoundB"],
         "streams": {"swapmath": (4000, 200000), "pm_hist": (120, 3000)},
         "what": "each fee = floor(gross*share) (never more); receiver gets gross minus all fees; perform_swap adds the offer in full and removes "
                 "exactly net+protocol+burn from the ask reserve, nothing else changes; a direct swap emits exactly [send net to receiver][burn]"
